@@ -346,38 +346,55 @@ struct Awesome {
 	rev: RRev,
 	cross: RCross,
 	conseq: u64,
-	high_peaks: Option<u64>,
-	low_peaks: Option<u64>,
+	/// peak counters as intervals [lo, hi] (saturating at 255): an undecided pivot widens the interval instead of
+	/// tainting the counter for the rest of a trend
+	high_peaks: (u64, u64),
+	low_peaks: (u64, u64),
 }
 impl RefInd for Awesome {
 	fn next(&mut self, c: &TC) -> (Vec<T>, Vec<Sig>) {
 		let s = source(c, self.src);
 		let value = self.ma2.next(s).sub(self.ma1.next(s));
 		let rev = self.rev.signal(value);
-		// peak counters are latches: an unknown reversal taints them until a reset that is certain
-		let bump = |cnt: Option<u64>, hit: Option<bool>| -> Option<u64> {
-			match (cnt, hit) {
-				(Some(c), Some(h)) => Some((c + u64::from(h)).min(255)),
-				_ => None,
+		// peak counters: an undecided pivot may or may not have been counted
+		let bump = |cnt: (u64, u64), hit: Option<bool>| -> (u64, u64) {
+			match hit {
+				Some(h) => ((cnt.0 + u64::from(h)).min(255), (cnt.1 + u64::from(h)).min(255)),
+				None => (cnt.0, (cnt.1 + 1).min(255)),
 			}
 		};
 		self.high_peaks = bump(self.high_peaks, rev.map(|r| r > 0));
 		self.low_peaks = bump(self.low_peaks, rev.map(|r| r < 0));
-		let s1 = match (rev, self.high_peaks, self.low_peaks) {
-			(Some(0), _, _) => Sig::A(Action::None),
-			(Some(r), _, Some(lp)) if r < 0 => i8sig(Some(i8::from(lp >= self.conseq))),
-			(Some(r), Some(hp), _) if r > 0 => i8sig(Some(-i8::from(hp >= self.conseq))),
-			_ => Sig::Unknown,
+		let decided = |cnt: (u64, u64), conseq: u64| -> Option<bool> {
+			if cnt.0 >= conseq {
+				Some(true)
+			} else if cnt.1 < conseq {
+				Some(false)
+			} else {
+				None
+			}
+		};
+		let s1 = match rev {
+			Some(0) => Sig::A(Action::None),
+			Some(r) if r < 0 => match decided(self.low_peaks, self.conseq) {
+				Some(b) => i8sig(Some(i8::from(b))),
+				None => Sig::Unknown,
+			},
+			Some(_) => match decided(self.high_peaks, self.conseq) {
+				Some(b) => i8sig(Some(-i8::from(b))),
+				None => Sig::Unknown,
+			},
+			None => Sig::Unknown,
 		};
 		let s2 = self.cross.cross(value, z());
 		match value.ge(z()) {
-			Tri::False => self.high_peaks = Some(0),
-			Tri::Unknown => self.high_peaks = if self.high_peaks == Some(0) { Some(0) } else { None },
+			Tri::False => self.high_peaks = (0, 0),
+			Tri::Unknown => self.high_peaks = (0, self.high_peaks.1),
 			Tri::True => {}
 		}
 		match value.le(z()) {
-			Tri::False => self.low_peaks = Some(0),
-			Tri::Unknown => self.low_peaks = if self.low_peaks == Some(0) { Some(0) } else { None },
+			Tri::False => self.low_peaks = (0, 0),
+			Tri::Unknown => self.low_peaks = (0, self.low_peaks.1),
 			Tri::True => {}
 		}
 		(vec![value], vec![s1, s2])
@@ -658,8 +675,8 @@ pub fn make_refind(name: &str, cfg: &Value, first: &TC) -> Option<Box<dyn RefInd
 				rev: RRev::new(cu(cfg, "left"), cu(cfg, "right"), z()),
 				cross: RCross::default0(),
 				conseq: cu(cfg, "conseq_peaks") as u64,
-				high_peaks: Some(0),
-				low_peaks: Some(0),
+				high_peaks: (0, 0),
+				low_peaks: (0, 0),
 			})
 		}
 		"BollingerBands" => {
